@@ -189,14 +189,29 @@ def _walk(exprs):
         if z3.is_app(e):
             stack.extend(e.children())
         elif z3.is_quantifier(e):
-            # lambdas: do not descend (bound variables)
-            pass
+            # lambdas (slice assignments, expression arrays): subterms without bound variables are still relevant
+            # (collect() filters anything that mentions a bound variable)
+            stack.append(e.body())
 
 
 def _has_var(e):
-    for s in _walk([e]):
-        if z3.is_var(s):
-            return True
+    """Does the term mention a de Bruijn variable of an ENCLOSING binder? (closed lambda sub-terms do not count)"""
+    seen = set()
+    stack = [(e, 0)]
+    while stack:
+        t, depth = stack.pop()
+        key = (t.get_id(), depth)
+        if key in seen:
+            continue
+        seen.add(key)
+        if z3.is_var(t):
+            if z3.get_var_index(t) >= depth:
+                return True
+        elif z3.is_quantifier(t):
+            stack.append((t.body(), depth + t.num_vars()))
+        elif z3.is_app(t):
+            for c in t.children():
+                stack.append((c, depth))
     return False
 
 
